@@ -256,6 +256,7 @@ func check(id, tier string) int {
 	status := 0
 	crossViol := 0
 	crossOK := false
+	raceHung := false
 	// 1. stored findings of this property are replayed first
 	known := loadKnown()
 	var knownLines []string
@@ -332,7 +333,10 @@ func check(id, tier string) int {
 			"-wsim.sites", filepath.Join(b.dir, "sites.json")}
 		out, err, timedOut := runEngine(b.binRace, time.Duration(tc.budget*2+300)*time.Second, args...)
 		if timedOut {
-			infra = append(infra, "race worker exceeded its watchdog")
+			// a hang of the free-running pass is judged after the deterministic
+			// part: if that part reports a violation (e.g. the deadlock itself),
+			// the violation is the verdict; otherwise the hang is exit 2
+			raceHung = true
 		} else if strings.Contains(out, "DATA RACE") {
 			p := filepath.Join(verifDir, "replays", fmt.Sprintf("%s-race-%d.txt", id, seed))
 			os.MkdirAll(filepath.Dir(p), 0o755)
@@ -482,6 +486,10 @@ func check(id, tier string) int {
 		reported[tr.Violation.Oracle] = true
 		nviol++
 		status = 1
+	}
+	if raceHung && nviol == 0 && status == 0 {
+		fmt.Fprintln(os.Stderr, "wsimctl: infrastructure problem (exit 2, not a verdict): the free-running race pass exceeded its watchdog and the deterministic part found nothing")
+		return 2
 	}
 	for _, l := range knownLines {
 		fmt.Println(l)
